@@ -9,8 +9,29 @@ pub use core::*;
 #[cfg(feature = "compiled_data")]
 use crate::tzdb::FsTzdbProvider;
 #[cfg(feature = "compiled_data")]
-use std::sync::{LazyLock, Mutex};
+use std::sync::{LazyLock, Mutex, MutexGuard, PoisonError};
+
+/// A mutex whose `lock` recovers the guard of a poisoned lock.
+///
+/// A panic while the provider is locked must not make every later call fail:
+/// the provider's only state is a memo of parsed time zone data whose entries
+/// are complete before they are inserted, so it is never left half-updated.
+#[cfg(feature = "compiled_data")]
+pub struct ProviderMutex<T>(Mutex<T>);
 
 #[cfg(feature = "compiled_data")]
-pub static TZ_PROVIDER: LazyLock<Mutex<FsTzdbProvider>> =
-    LazyLock::new(|| Mutex::new(FsTzdbProvider::default()));
+impl<T> ProviderMutex<T> {
+    /// Acquires the lock, taking the guard out of a `PoisonError`.
+    pub fn lock(&self) -> Result<MutexGuard<'_, T>, ::core::convert::Infallible> {
+        Ok(self.0.lock().unwrap_or_else(PoisonError::into_inner))
+    }
+
+    /// Whether a thread panicked while holding the lock.
+    pub fn is_poisoned(&self) -> bool {
+        self.0.is_poisoned()
+    }
+}
+
+#[cfg(feature = "compiled_data")]
+pub static TZ_PROVIDER: LazyLock<ProviderMutex<FsTzdbProvider>> =
+    LazyLock::new(|| ProviderMutex(Mutex::new(FsTzdbProvider::default())));
